@@ -806,14 +806,14 @@ class FnBounds:
 #   how = ("guard", leaf-in-caller)     a dominating comparison of that leaf in the caller, before the call
 #         ("try_from", leaf-in-caller)  a dominating u8::try_from of that leaf in the caller
 #         ("empty",)                    the caller passes an empty slice literal
-BOUNDED_BY_CALLER = {
-    (COMP + "compile_unpack_nested_args_of_tuple", "len(args)"): (
-        127, {COMP + "compile_arg": ("guard", "len(nested_args)")},
-        "the nested arg list is compared with i8::MAX in compile_arg before the size check is emitted"),
-    (COMP + "compile_frame", "len(args)"): (
-        255, {COMP + "compile_function": ("try_from", "len(args)"), COMP + "compile_node": ("empty",)},
-        "compile_function converts args.len() with u8::try_from; the main block has no args"),
-}
+BOUNDED_BY_CALLER = [
+    dict(callee=COMP + "compile_unpack_nested_args_of_tuple", param=3, field=None, bound=127,
+         callers={COMP + "compile_arg": "guard"},
+         why="the nested arg list is compared with i8::MAX in compile_arg before the size check is emitted"),
+    dict(callee=COMP + "compile_frame", param=2, field="args", bound=255,
+         callers={COMP + "compile_function": "try_from", COMP + "compile_node": "empty"},
+         why="compile_function converts args.len() with u8::try_from; the main block has no args"),
+]
 
 # sites that are safe for a reviewed reason that is not a bound on the value: (fn, slot) -> reason
 REVIEWED = {
@@ -1157,13 +1157,54 @@ def _frame_allocator(cx, r):
     return ok
 
 
+def _callee_leaf(cx, cf, param, field):
+    """the name under which the callee's sites see `len(<param>)` / `len(<param>.<field>)`: parameters are addressed by
+    position, so renaming them does not matter"""
+    if field is None:
+        return "len(" + (cf.local_name(param) or f"arg{param}") + ")"
+    du = cx.du(cf)
+    for l, ds in du.defs.items():
+        if len(ds) == 1 and ds[0][2] == "assign" and ds[0][3][0] == "use":
+            pl = op_place(ds[0][3][1])
+            if pl is not None and pl[0] == param and place_fields(pl) == [field] and cf.local_name(l):
+                return "len(" + cf.local_name(l) + ")"
+    return "len(" + (cf.local_name(param) or f"arg{param}") + "." + field + ")"
+
+
+def _actual_operand(cx, fn, c, param, field):
+    """the operand the caller passes for the callee's parameter (or for the field of an aggregate argument)"""
+    if param - 1 >= len(c.args):
+        return None
+    op = c.args[param - 1]
+    if field is None:
+        return op
+    du = cx.du(fn)
+    l = op_base(op)
+    for _ in range(6):
+        if l is None:
+            return None
+        d = du.single_def(l)
+        if d is None or d[2] != "assign":
+            return None
+        rv = d[3]
+        if rv[0] == "agg" and rv[1][0] == "adt" and field in rv[1][3]:
+            return rv[2][rv[1][3].index(field)]
+        if rv[0] in ("use", "cast"):
+            l = op_base(rv[1] if rv[0] == "use" else rv[2])
+        else:
+            return None
+    return None
+
+
 def _caller_bounds(cx, r):
     """check BOUNDED_BY_CALLER against the call graph and the callers' guards; returns {(callee, leaf): bound}"""
     F = cx.F
     out = {}
-    for (callee, leaf), (bound, callers, why) in BOUNDED_BY_CALLER.items():
+    for ent in BOUNDED_BY_CALLER:
+        callee, bound, callers, why = ent["callee"], ent["bound"], ent["callers"], ent["why"]
         cf = F.fn(callee)
         require(cf is not None, f"R-NARROW: {callee} not found")
+        leaf = _callee_leaf(cx, cf, ent["param"], ent["field"])
         actual = {}
         for fn in F.fns.values():
             if fn.crate.uname != CRATE:
@@ -1177,41 +1218,69 @@ def _caller_bounds(cx, r):
         r.nontrivial += 1
         good = True
         cshort = callee.rsplit("::", 1)[-1]
+        what = f"parameter {ent['param']}" + (f".{ent['field']}" if ent["field"] else "")
         for cq in actual:
             if cq == callee:
                 continue      # recursion re-enters through a listed caller or passes its own bounded parameter
             if cq not in callers:
                 good = False
-                r.add(Finding("R-NARROW", callee, f"caller:{cq.rsplit('::', 1)[-1]}:{leaf}",
-                              f"{cq} calls {cshort} but is not known to bound {leaf} (<= {bound})", cf.file, cf.line))
+                r.add(Finding("R-NARROW", callee, f"caller:{cq.rsplit('::', 1)[-1]}:{what}",
+                              f"{cq} calls {cshort} but is not known to bound the length of {what} (<= {bound})",
+                              cf.file, cf.line))
         for cq, how in callers.items():
             for fn, c in actual.get(cq, ()):
                 fb = FnBounds(cx, fn)
-                slot = f"caller:{cq.rsplit('::', 1)[-1]}:{leaf}"
-                if how[0] == "empty":
-                    has_empty = any(st[0] == "a" and st[2][0] == "cast" and "; 0]" in fn.crate.tstr(st[2][4])
-                                    for b in fn.blocks if not b.cleanup for st in b.stmts)
-                    if not has_empty:
+                slot = f"caller:{cq.rsplit('::', 1)[-1]}:{what}"
+                op = _actual_operand(cx, fn, c, ent["param"], ent["field"])
+                if op is None:
+                    good = False
+                    r.add(Finding("R-NARROW", callee, slot, f"the argument {cq} passes for {what} of {cshort} was not "
+                                  f"understood", fn.file, c.line))
+                    continue
+                pl = op_place(op)
+                aleaf = "len(" + fb.sym.canon(pl[0], place_fields(pl)) + ")" if pl is not None else None
+                if how == "empty":
+                    ok = False
+                    l = op_base(op)
+                    du = cx.du(fn)
+                    for _ in range(5):
+                        d = du.single_def(l) if l is not None else None
+                        if d is None or d[2] != "assign":
+                            break
+                        rv = d[3]
+                        if rv[0] == "cast" and "; 0]" in fn.crate.tstr(rv[4]):
+                            ok = True
+                            break
+                        if rv[0] in ("use", "cast"):
+                            l = op_base(rv[1] if rv[0] == "use" else rv[2])
+                        elif rv[0] in ("ref", "rawptr"):
+                            l = rv[2][0]
+                            if "; 0]" in fn.local_tstr(l):
+                                ok = True
+                                break
+                        else:
+                            break
+                    if not ok:
                         good = False
-                        r.add(Finding("R-NARROW", callee, slot, f"{cq} no longer passes an empty list to {cshort}",
-                                      fn.file, c.line))
-                elif how[0] == "guard":
+                        r.add(Finding("R-NARROW", callee, slot, f"{cq} no longer passes an empty list for {what} of "
+                                      f"{cshort}", fn.file, c.line))
+                elif how == "guard":
                     b = fb.at(c.bb)
-                    if b.leaf_ub.get(how[1], INF) > bound:
+                    if aleaf is None or b.leaf_ub.get(aleaf, INF) > bound:
                         good = False
-                        r.add(Finding("R-NARROW", callee, slot, f"{cq} calls {cshort} without first bounding {how[1]} "
+                        r.add(Finding("R-NARROW", callee, slot, f"{cq} calls {cshort} without first bounding {aleaf} "
                                       f"by {bound}: {why}", fn.file, c.line))
-                elif how[0] == "try_from":
+                elif how == "try_from":
                     okc = False
                     for c2 in fn.calls():
                         if (c2.pretty or c2.short or "").endswith("try_from") and c2.args and \
                                 fb.cfg.dominates(c2.bb, c.bb):
                             e = fb.sym.expr(c2.args[0])
-                            if leaves_of(e) == {how[1]} and "Result<u8" in fn.local_tstr(c2.dest[0]):
+                            if leaves_of(e) == {aleaf} and "Result<u8" in fn.local_tstr(c2.dest[0]):
                                 okc = True
                     if not okc:
                         good = False
-                        r.add(Finding("R-NARROW", callee, slot, f"{cq} calls {cshort} without u8::try_from({how[1]}): "
+                        r.add(Finding("R-NARROW", callee, slot, f"{cq} calls {cshort} without u8::try_from({aleaf}): "
                                       f"{why}", fn.file, c.line))
         if good:
             out[(callee, leaf)] = bound
